@@ -8,9 +8,11 @@ A semantic change of the Go function changes the generated definition and these 
 import Apko.Generated.TransResolver
 import Apko.Generated.Resolver
 import Apko.Model.Resolver
+import Apko.Proofs.Lemmas.TransLoop
+import Apko.Proofs.TransVersion
 
 namespace Apko.TransResolver
-open Apko Apko.Resolver
+open Apko Apko.Resolver Apko.TransLoop
 
 -- a `for … range` loop whose body is "`if p x { return g x }`" is `find?` followed by `g`
 theorem findSome_guard {α β} (p : α → Prop) [DecidablePred p] (g : α → β) (l : List α) :
@@ -89,6 +91,109 @@ theorem trans_conflictingVersion (con : Constraint) (conflict : Pkg) :
         · by_cases hv : (parseConstraint x).version = [] <;> simp_all
         · simp_all
   · simp [h1]
+
+/-- the candidate test of `filterPackages` that does not look at versions (the model's `survivors`) -/
+def surv (dq : List Nat) (allowPin preferPin : Text) (installed : Option Pkg) (p : Pkg) : Bool :=
+  !dq.contains p.id &&
+    !((!p.pin.isEmpty && p.pin != allowPin && p.pin != preferPin) &&
+      (match installed with | none => true | some i => Pkg.url i != Pkg.url p))
+
+/-- the model's test of one provide against the required version -/
+def provHit (dep : Dep) (req : Version) (prov : Text) : Bool :=
+  let v := (parseConstraint prov).version
+  if v.isEmpty then false
+  else match pv v with
+    | none => false
+    | some a => dep.satisfies a req
+
+/-- the model's version test of one candidate -/
+def pkgTest (dep : Dep) (req : Version) (p : Pkg) : Bool :=
+  match pv p.version with
+  | none => false
+  | some act => dep.satisfies act req || p.provides.any (provHit dep req)
+
+-- T `trans_filterPackages`: the body of Go's `filterPackages` after the functional options were applied
+-- (the loop with its accumulator `passed`, the early `return nil`, `continue`, and the inner loop over the
+-- provides with its `break`), translated, is the model's `filterPackages` — which `C02.filter_local`,
+-- `filter_perm`, `filter_sound`, `filter_excludes_dq` are about.
+theorem trans_filterPackages (pkgs : List Pkg) (dq : List Nat) (version : Text) (dep : Dep)
+    (allowPin preferPin : Text) (installed : Option Pkg) :
+    Generated.Trans.filterPackages pkgs dq ⟨allowPin, preferPin, version, installed, dep⟩ =
+      filterPackages pkgs dq version dep allowPin preferPin installed := by
+  unfold Generated.Trans.filterPackages filterPackages
+  simp only [TransVersion.trans_satisfies]
+  by_cases hany : dep = .any
+  · subst hany
+    rw [forRange_next (g := fun s x => if surv dq allowPin preferPin installed x then s ++ [x] else s)]
+    · rw [foldl_append_filter, List.nil_append]
+      congr 1
+    · intro s x
+      cases installed <;> simp [surv] <;> grind
+  · cases hv : pv version with
+    | none =>
+      simp only [hany, ↓reduceIte]
+      split
+      · rename_i r heq
+        exact forRange_next_or_ret_inl _ [] (by
+          intro s x
+          simp only [Option.isNone_none, ↓reduceIte, beq_iff_eq, hany]
+          repeat' split
+          all_goals first | exact Or.inl rfl | exact Or.inr rfl) _ _ _ heq
+      · rename_i p heq
+        exact forRange_next_or_ret_inr _ [] (by
+          intro s x
+          simp only [Option.isNone_none, ↓reduceIte, beq_iff_eq, hany]
+          repeat' split
+          all_goals first | exact Or.inl rfl | exact Or.inr rfl) _ _ _ heq
+    | some req =>
+      simp only [hany, ↓reduceIte]
+      rw [forRange_next (g := fun s x =>
+        if (pkgTest dep req x && surv dq allowPin preferPin installed x) then s ++ [x] else s)]
+      · rw [foldl_append_filter, List.nil_append, List.filter_filter]
+        congr 1
+      · intro s x
+        simp only [Option.isNone_some, Bool.false_eq_true, ↓reduceIte, beq_iff_eq, hany, Option.getD_some]
+        by_cases hs : surv dq allowPin preferPin installed x = true
+        · have hd : dq.contains x.id = false := by simp [surv] at hs; simpa using hs.1
+          have hp : (x.pin != [] && x.pin != allowPin && x.pin != preferPin &&
+              (installed.isNone || (if installed.isSome = true then Pkg.url (installed.getD default) else []) != Pkg.url x)) = false := by
+            cases installed <;> simp [surv] at hs ⊢ <;> grind
+          simp only [hd, hp, Bool.false_eq_true, ↓reduceIte, hs, Bool.and_true, pkgTest]
+          cases hx : pv x.version with
+          | none => simp
+          | some act =>
+            simp only [Option.isNone_some, Bool.false_eq_true, ↓reduceIte, Option.getD_some]
+            by_cases hsat : dep.satisfies act req = true
+            · simp [hsat]
+            · simp only [hsat, Bool.false_eq_true, ↓reduceIte, Bool.false_or]
+              split
+              · rename_i r heq
+                exact absurd heq (forRange_brk_any_not_inl (fun t => t.2.2) (provHit dep req) (· ++ [x]) _ (by
+                  intro t prov
+                  unfold provHit
+                  by_cases h1 : (parseConstraint prov).version = []
+                  · simp [h1]
+                  · cases h2 : pv (parseConstraint prov).version with
+                    | none => simp [h1, h2]
+                    | some a => by_cases h3 : dep.satisfies a req = true <;> simp [h1, h2, h3]) _ _ _)
+              · rename_i av er pa heq
+                have := forRange_brk_any_inr (fun t => t.2.2) (provHit dep req) (· ++ [x]) _ (by
+                  intro t prov
+                  unfold provHit
+                  by_cases h1 : (parseConstraint prov).version = []
+                  · simp [h1]
+                  · cases h2 : pv (parseConstraint prov).version with
+                    | none => simp [h1, h2]
+                    | some a => by_cases h3 : dep.satisfies a req = true <;> simp [h1, h2, h3]) _ _ _ heq
+                simpa using this
+        · have hs2 : surv dq allowPin preferPin installed x = false := by simpa using hs
+          simp only [hs2, Bool.and_false, Bool.false_eq_true, ↓reduceIte]
+          by_cases hd : dq.contains x.id = true
+          · simp only [hd, ↓reduceIte]
+          · have hp : (x.pin != [] && x.pin != allowPin && x.pin != preferPin &&
+                (installed.isNone || (if installed.isSome = true then Pkg.url (installed.getD default) else []) != Pkg.url x)) = true := by
+              cases installed <;> simp [surv] at hs2 hd ⊢ <;> grind
+            simp only [hd, hp, Bool.false_eq_true, ↓reduceIte]
 
 -- every call site hands `nil` as `compare` (the branch on it is dead code today)
 theorem tie_comparatorCallSites : Generated.comparatorCompareArgs = ["nil", "nil", "nil"] := by decide
